@@ -2,7 +2,7 @@
 from harness.coqcases import run_bool_cases, zlit
 from harness.props._common import run_eval, replay_eval
 
-PROPS_FILES = ["P_C20", "P_C20mx"]
+PROPS_FILES = ["P_C20", "P_C20mx", "P_C20r"]
 PROPS_FILE = "P_C20"
 GEN_FILES = ["Gen_iota"]
 COQ_TARGETS = ["CaseLib"]
@@ -51,7 +51,7 @@ def replay(ctx, case):
 
 
 MANIFEST = dict(
-    text="Proof: _get_iota, regenerated from the source, selects bit j and deletes it (C20_iota_delta, C20_iota_index_bits, all n); Lagrange's identity behind the Meyer-Wallach formula over any field with involution (C20_lagrange). Tie: translator validated by executing the translation against CPython for every argument (n<=6/8). The value, range, invariances and the geometric measure's post-conditions are evaluated; the geometric measure's convergence is not a theorem.",
+    text="Proof: _get_iota, regenerated from the source, selects bit j and deletes it (C20_iota_delta, C20_iota_index_bits, all n); Lagrange's identity behind the Meyer-Wallach formula over any field with involution (C20_lagrange). Tie: translator validated by executing the translation against CPython for every argument (n<=6/8). The geometric measure lies in [0,1] for whatever unit product state is returned (C20_geometric_range, Cauchy-Schwarz), given the post-conditions evaluated on every input (the returned product state is normalised and the reported value is 1 - its fidelity with the input). The value, invariances and the remaining post-conditions are evaluated; the convergence of the optimiser is not a theorem.",
     note='Modelled, not verified: numpy sums; tensorly Tucker iteration (post-conditions evaluated only).',
     technique='Coq proof (Z bit lemmas; mathcomp big-operator algebra) on translator-regenerated definitions + translation validation + numpy evaluation',
     design_ref='DESIGN.md section 4, C20')
